@@ -298,7 +298,8 @@ class World:
 def fingerprint(w):
     """internal state of the real objects (used ONLY to prune the exhaustive search, never compared
     with the model)"""
-    q = w.ch._queue
+    # (tolerant of a channel with other internals: whatever simple attributes the object has are taken instead)
+    q = getattr(w.ch, "_queue", None)
     ids = w.loop.task_ids
 
     def fut(f):
@@ -316,11 +317,16 @@ def fingerprint(w):
         ts.append("%s%s%s%s" % ("D" + str(outcome_of(t)) if t.done() else ("r" if "t%d" % i in run else "b"),
                                 fut(fw) if fw is not None and not t.done() else "-",
                                 "!" if t._must_cancel else "", "T" if "T%d" % i in run else ""))
-    return "|".join([
-        ",".join("F" if not isinstance(x, tuple) else "%d.%d" % x for x in q._queue),
-        ",".join("%s%s" % (owner.get(id(f), "?"), fut(f)) for f in q._getters),
-        ",".join("%s%s" % (owner.get(id(f), "?"), fut(f)) for f in q._putters),
-        str(q._unfinished_tasks), str(int(w.ch._closed)), str(int(w.ch._flushed)), str(w.ch._waiting_receivers),
+    try:
+        qpart = [",".join("F" if not isinstance(x, tuple) else "%d.%d" % x for x in q._queue),
+                 ",".join("%s%s" % (owner.get(id(f), "?"), fut(f)) for f in q._getters),
+                 ",".join("%s%s" % (owner.get(id(f), "?"), fut(f)) for f in q._putters),
+                 str(q._unfinished_tasks)]
+    except AttributeError:
+        qpart = ["?"]
+    chpart = ",".join("%s=%r" % (k, v) for k, v in sorted(vars(w.ch).items()) if isinstance(v, (bool, int, str, type(None))))
+    return "|".join(qpart + [
+        chpart,
         " ".join(ts),
         # (an item that is not one of the (sender, seq) pairs the harness sent is an invented item: the judge reports it)
         ",".join(("%d:%d.%d" % (i, x[0], x[1])) if isinstance(x, tuple) and len(x) == 2 else "%d:?%s" % (i, type(x).__name__)
